@@ -70,8 +70,14 @@ func AddRepository(ctx context.Context, url string) error {
 	if err := os.MkdirAll(repositoriesDir, 0755); err != nil {
 		return fmt.Errorf("couldn't create plugin repositories directory: %w", err)
 	}
-	if err := os.WriteFile(filepath.Join(repositoriesDir, repo.Slug), data, 0644); err != nil {
+	// Write to a temporary file outside of the repositories directory (every file in there is read as an entry)
+	// and rename, so that an interrupted write never leaves a truncated entry behind.
+	tmpPath := repositoriesDir + "-" + repo.Slug + ".tmp"
+	if err := os.WriteFile(tmpPath, data, 0644); err != nil {
 		return fmt.Errorf("couldn't write repository entry: %w", err)
+	}
+	if err := os.Rename(tmpPath, filepath.Join(repositoriesDir, repo.Slug)); err != nil {
+		return fmt.Errorf("couldn't move repository entry into place: %w", err)
 	}
 
 	return nil
